@@ -58,6 +58,8 @@ def swap_obj(o):
 def grid(K, g, negate=False):
     t2s, ths = [], []
     for t2 in range(-1, 2 * K):
+        if t2 % 2 and g.name.startswith("ulp"):
+            continue                  # neighbouring scores are neighbouring doubles: nothing in between
         for f in (["mid"] if t2 % 2 == 0 else ["mid", "lo", "hi"]):
             t2s.append(t2)
             ths.append(g.thr(t2, f))
@@ -79,9 +81,10 @@ def probe(ev, s, o, h, K, g, qs, negate=False, base_g=None):
         e["cm"] = [[int(r[0, 0]), int(r[0, 1]), int(r[1, 0]), int(r[1, 1])] for r in m]
         for name in sd.METRICS:
             e["rates"][name] = [gamma.proj_rat(x, 1000) for x in np.asarray(getattr(s, name)(th))]
+        lite = (base_g or g).name.startswith("ulp")     # interpolated thresholds cannot be represented
         for name in sd.METRICS:
             S = sd.rel_scores(o, name)
-            if not S:
+            if not S or lite:
                 continue
             rs = sd.targets(o, name, qs)
             rf = np.array([f.numerator / f.denominator for f in rs])
@@ -92,6 +95,8 @@ def probe(ev, s, o, h, K, g, qs, negate=False, base_g=None):
             e["auc"] = gamma.proj_rat(s.auc(), 5000, ulps=64)
             e["pauc"] = gamma.proj_rat(s.auc(0.25, 0.75), 20000, ulps=64)
             e["pauc2"] = gamma.proj_rat(s.auc(0.1, 0.6, x_axis="fnr", y_axis="tnr"), 20000, ulps=64)
+            if lite:
+                return e
             t, ee = s.eer()
             proj = sd.ThrProjector(g, sorted(set(o["pos"]) | set(o["neg"])))
             e["eer"] = {"ok": True, "e6": int(round(float(ee) * 1e6)),
@@ -153,7 +158,7 @@ def run(ctx: core.Ctx):
     K, qs, cases = data["k"], data["qs"], data["cases"]
     ids = iter(range(1, 10**9))
     events = []
-    base = [gamma.ident(), gamma.affine(2.0, 1.0)]
+    base = [gamma.ident(), gamma.affine(2.0, 1.0), gamma.half_mixed()]   # the last: int-typed next to float class
     for cid, o in enumerate(cases):
         g = base[(cid + ctx.seed) % len(base)]
         naff = len(AFFINE) if ctx.tier == "thorough" else 4
@@ -162,6 +167,14 @@ def run(ctx: core.Ctx):
         vals = list(o["pos"]) + list(o["neg"])
         if len(set(vals)) < len(vals) or o["ep"] or o["en"]:
             ctx.nontrivial.add(json.dumps(o, sort_keys=True))
+    # scores that are neighbouring doubles (0.5 + v ulps) against the same data shifted by -0.25 (exact;
+    # the neighbours are then two ulps apart): matrices / rates on the scores, AUC and partial AUC
+    u = 2.0 ** -53
+    g_ulp = gamma.ulp_adjacent(0.5)
+    g_sh = gamma.Gamma("ulp-shifted", lambda v: 0.25 + v * u, lambda x: (x - 0.25) / u)
+    for cid, o in enumerate(cases):
+        if (cid + ctx.seed) % (3 if ctx.tier == "quick" else 1) == 0:
+            events += events_for_case(o, cid, g_ulp, g_sh, K, qs, ids)
     for e in events[:2]:
         ctx.sample(e)
     ctx.judge("Trace_C08", events, cases=cases, batch=1500)
